@@ -97,7 +97,7 @@ def C(name, target, args, ref, requires=(), ensures=(), extra_policy=None):
     pol.update(extra_policy or {})
     return Contract("C08." + name, target, state, requires=[ST + "inv", R8 + "j_inv"] + list(requires), refines=ref,
                     view=ST + "view_cfg", ensures=[("inv", ST + "post_inv"), ("J", R8 + "j_post")] + list(ensures),
-                    policy=pol, props=["C08"])
+                    policy=pol, props=["C08", "C09", "C01"] + (["C04", "C07", "C05", "C14"] if name in ("listen.set", "listen.get", "open_rx_pipe", "open_tx_pipe") else []))
 
 
 def j_post(self):
